@@ -7,6 +7,7 @@ import JanetModel.Stream.Lemmas
 import JanetModel.Stream.Slots
 import JanetModel.Stream.Liveness
 import JanetModel.Stream.NetLemmas
+import JanetModel.Stream.Compose
 import JanetModel.Proc.Status
 import JanetModel.Proc.SpawnLemmas
 import JanetModel.Proc.SetupLemmas
@@ -670,5 +671,77 @@ theorem read_all_returns_everything_before_eof {α : Type} (limC base n : Nat) (
   · exact Or.inr h
 
 end Sockets
+
+/-! ## one stream shared by several fibers: operations composed with the slot registry -/
+section Shared
+open JanetModel.Stream.Compose
+
+/-- ★ ISOLATION (any callback machine `step`, ending on CLOSE).  With the slot guards of `janet_async_start_fiber`, an
+    operation that was admitted to its slot behaves, under EVERY continuation of the schedule — other fibers starting
+    operations in either direction, readiness events in either direction, close —, exactly like the same machine run
+    ALONE on the events dispatched in its direction (`foldOp step s (evsOf …)`): still registered with that state while
+    the lone run is pending, recorded as ended with the lone run's final state otherwise.  Hence every single-operation
+    theorem above holds for each operation on a shared stream. -/
+theorem shared_stream_isolation {σ ε : Type} (step : σ → ε → σ × Bool) (c : ε) (hclose : ∀ s, (step s c).2 = true)
+    (f : Nat) (d : Dir) (as : List (Act2 σ ε)) (w : W2 σ) (s : σ) (hinv : Inv2 w) (ho : w.op f = some (d, s)) :
+    ((foldOp step s (evsOf c d as)).2 = false → (run2 step c w as).op f = some (d, (foldOp step s (evsOf c d as)).1)) ∧
+    ((foldOp step s (evsOf c d as)).2 = true → (f, d, (foldOp step s (evsOf c d as)).1) ∈ (run2 step c w as).done) := by
+  have h := isolation step c f d as w s hinv ho
+  rw [track_eq_foldOp step c d hclose as s] at h
+  exact h
+
+/-- the invariant that makes isolation applicable is established by the machine itself from the empty stream -/
+theorem shared_stream_invariant {σ ε : Type} (step : σ → ε → σ × Bool) (c : ε) (as : List (Act2 σ ε)) :
+    Inv2 (run2 step c W2.init as) := by
+  have key : ∀ (as : List (Act2 σ ε)) (w : W2 σ), Inv2 w → Inv2 (run2 step c w as) := by
+    intro as
+    induction as with
+    | nil => intro w h; exact h
+    | cons a as ih => intro w h; exact ih _ (step2_inv step c w a h)
+  exact key as W2.init (fun f d s h => by simp [W2.init] at h)
+
+/-- ★ several writers on ONE stream: while a write is pending, a write (or any operation in the write direction) by
+    another fiber is REFUSED — the fiber raises "cannot listen for duplicate event on stream" — and nothing else changes:
+    slot, pending operation, its offset and call log stay as they are.  Per-writer byte order on a shared stream is thus
+    enforced by exclusion, not by queueing; programs that need several concurrent writers must serialise them. -/
+theorem concurrent_writer_refused {σ ε : Type} (step : σ → ε → σ × Bool) (c : ε) (w : W2 σ) (f g : Nat) (d : Dir) (s s0 : σ) (e0 : ε)
+    (h : Inv2 w) (ho : w.op f = some (d, s)) (hg : g ≠ f) (hgp : w.op g = none) (hc : w.closed = false) :
+    step2 step c w (.start g d s0 e0) = { w with refused := w.refused ++ [g] } :=
+  concurrent_start_refused step c w f g d s s0 e0 h ho hg hgp hc
+
+/-- ★ SHARED STREAM, writes, all schedules: the pending write of fiber `f` makes exactly the system calls of `runWrite`
+    against the write-direction events of the schedule and ends with its result; the bytes handed to the kernel are a
+    prefix of the source, in order, each once — all of them on success —, whatever other fibers do on the stream. -/
+theorem shared_stream_write_delivers_in_order {α : Type} (src : List α) (dgram : Bool) (f : Nat) (as : List (Act2 WS WEv)) (w : W2 WS)
+    (hinv : Inv2 w) (ho : w.op f = some (.wr, ⟨src.length, dgram, 0, [], .pending⟩)) :
+    let t := runWrite src.length dgram 0 (evsOf .close .wr as)
+    (t.res = .pending → ∃ s, (run2 wstep .close w as).op f = some (.wr, s) ∧ s.start = t.start ∧ s.calls = t.calls) ∧
+    (t.res ≠ .pending → ∃ s, (f, .wr, s) ∈ (run2 wstep .close w as).done ∧ s.start = t.start ∧ s.calls = t.calls ∧ s.res = t.res) ∧
+    delivered src t.calls = src.take (sumGot t.calls) ∧ (dgram = false → t.res = .done → delivered src t.calls = src) :=
+  shared_stream_write_exact src dgram f as w hinv ho
+
+/-- ★ LIVENESS OF THE WHOLE SYSTEM with fairness as explicit hypothesis: on every infinite schedule of a shared stream
+    in which productive write-direction events (the kernel transfers ≥ 1 byte or fails; error / hang-up / close) keep
+    coming and every call is answered, the pending write of fiber `f` has ended after a finite prefix — whatever the
+    other fibers do.  (`fair` is the kernel's side of the contract; it is what remains assumed.) -/
+theorem shared_stream_write_terminates_under_fairness (len : Nat) (dgram : Bool) (f : Nat) (sched : Nat → Act2 WS WEv) (w : W2 WS)
+    (hinv : Inv2 w) (ho : w.op f = some (.wr, ⟨len, dgram, 0, [], .pending⟩))
+    (hc : ∀ i e, sched i = .ev .wr e → e.complete = true)
+    (fair : ∀ k, ∃ j, k ≤ j ∧ fairAct (sched j) = true) :
+    ∃ m s, (f, Dir.wr, s) ∈ (run2 wstep .close w (prefixOf sched m)).done ∧ s.res.ended = true :=
+  shared_stream_write_ends_under_fairness len dgram f sched w hinv ho hc fair
+
+-- non-vacuity: fiber 0 writes 10 bytes (3 accepted at INIT), fiber 1 tries to write meanwhile (refused), fiber 2 reads
+-- (admitted: other direction), then the kernel takes the remaining 7 bytes: fiber 0's write is done with offset 10
+def exSched : List (Act2 WS WEv) :=
+  [.start 0 .wr ⟨10, false, 0, [], .pending⟩ (.ready [.bytes 3]), .start 1 .wr ⟨5, false, 0, [], .pending⟩ (.ready [.bytes 5]),
+   .start 2 .rd ⟨1, false, 0, [], .pending⟩ (.ready [.eagain]), .ev .wr (.ready [.eintr, .bytes 100])]
+example : (run2 wstep .close W2.init exSched).refused = [1] := by decide
+example : (run2 wstep .close W2.init exSched).done.map (fun x => (x.1, x.2.2.start, x.2.2.calls)) =
+    [(0, 10, [⟨0, 10, 3⟩, ⟨3, 7, 0⟩, ⟨3, 7, 7⟩])] := by decide
+example : ((run2 wstep .close W2.init exSched).op 2).isSome = true := by decide
+example : fairAct (.ev .wr (.ready [.eintr, .bytes 1])) = true ∧ fairAct (.ev .wr (.ready [.eagain])) = false := by decide
+
+end Shared
 
 end JanetModel.Props.C16
